@@ -152,6 +152,10 @@ ADDENDA = {
     'C09': 'VARIABLE BINDING on the real algorithms (Model/Variables.lean: parse_dictionary_variables, parse_attribute_variables, map_variables_directly, ensure_no_ambiguous_variables, generate_init_statements; tied to both ports): '
            'C09_dict_no_false_negative (the "probably has" heuristic never misses a referenced column: every name segment survives the escaping), C09_dict_variable_binds_position, C09_attribute_variable_binds_position, C09_attribute_unknown_column_fails, '
            'C09_attr_duplicate_names_diverge (Python last / rbql.js first column of a duplicated name), C09_init_assignments_cover, C09_direct_variable_bound, C09_ambiguous_detected. VARIABLE DISCOVERY: C09_basic_vars_iff: n is reported by parse_basic_variables (model) IFF `a<n>` occurs delimited by non-word characters (sound AND complete); C09_array_vars_sound / _complete (with the counterexample `a[1]a[2]`); C09_var_not_inside_identifier. Tied to both ports. ',
+    'C03': 'NUMERIC STRINGS ARE MODELLED (Model/Number.lean: Python int() then float() grammar as NumHandler.parse applies them, JavaScript Number() as rbql.js parse_number does) and tied string by string '
+           '(every string of length <= 4 over a 14-character alphabet, boundary words, sequences through one handler) to the real NumHandler.parse and the real rbql.js parse_number; '
+           'C03_int_literal_is_float_literal / C03_numhandler_mode_irrelevant / C03_numhandler_history_irrelevant (what a string denotes does not depend on the handler state), '
+           'C03_plain_integer_value / C03_plain_decimal_value / C03_py_js_agree_on_plain_decimals, C03_blanks_ignored, counterexample theorems for every real difference between the ports. ',
     'C04': 'TEXT-TO-KEYS (Model/JoinResolve.lean, tied to resolve_join_variables of both ports): C04_on_pair_resolves, C04_on_sides_symmetric (b… == a… resolves like a… == b…), C04_record_number_keys_resolve, '
            'C04_record_numbers_swapped_counterexample (`bNR == NR` is refused), C04_ambiguous_key_refused, C04_resolved_key_lists_have_equal_length (one entry per pair, in order: the join well-formedness hypothesis of the rbql.js refinement holds for every parsed query). ',
     'C08': 'JAVASCRIPT PORT: the rbql.js literal scanner is modelled (separateLiteralsJs) and tied on every string of length <= 7 over {\' " \\ a `}; C08_js_literals_reassemble, C08_js_literal_closes_after_escaped_backslash (regression theorem of defect D23, fixed: '
